@@ -6,7 +6,8 @@ Model of
     `checkOrGetDescendantHash`, `handleAscendingByNumber`, `handleDescendingByNumber`,
     `handleChainByHash`, `getBlockDataByNumber`, `getBlockData` (dot/sync/message.go, after the
     `fix:` commit recorded in harness/C31/findings.json)
-over a block state that holds a tree of unfinalised blocks rooted at genesis (the queries of
+over a block state that holds a tree of blocks rooted at genesis (a fork-free prefix may be
+finalised, i.e. live in the database: the answers are the same; the queries of
 `state.BlockState` the serving code uses are modelled by what they return on such a tree).
 Every definition mirrors one Go function; loops are structural recursion.  Core Lean only.
 -/
